@@ -29,6 +29,14 @@ def judge(cur, s, cname, node, result, change, error, before_snap, everything):
         rroot = RW.get_root(result)
     except Exception as e:  # noqa
         return out + [("result-has-no-root", repr(e))]
+    # a rule that returns a NEW tree (the balanced move clones internally) must leave the tree it was handed intact
+    handed = RW.LAST.get("handed") if cname == "BM" else None
+    if handed is not None and handed is not rroot and not ({id(n) for n in audit.all_nodes(handed)} & {id(n) for n in audit.all_nodes(rroot)}):
+        hp = audit.link_audit(handed)
+        if hp:
+            out.append(("handed-tree-links-broken", "; ".join(hp[:2])))
+        elif SG.sig(handed) != RW.LAST.get("handed_sig"):
+            out.append(("handed-tree-modified", f"{SG.show(RW.LAST.get('handed_sig'))} -> {SG.show(SG.sig(handed))}"))
     probs = audit.link_audit(rroot)
     if probs:
         out.append(("links-inconsistent", "; ".join(probs[:3])))
